@@ -609,12 +609,12 @@ func init() {
 	fw.Register(&fw.Check{
 		ID:    "C14",
 		Level: "exploration",
-		Rule:  "exhaustive enumeration of container compositions: templates = every accessory constructor of the library plus a custom accessory per service constructor × {plain, hidden, primary, linked}; explicit id ∈ {auto,1,2,3,7,2^64−1}; all single accessories, all pairs (quick: first element restricted to library accessories and every 8th custom one), all triples over a reduced template set, two large compositions (40, 150 accessories), for every service constructor an accessory rebuilt with a previously published service object, accessories JSON-encoded before being added, services without characteristics in every position, a vendor-typed service (UUIDs with and without a leading zero) holding k = 0…40 (thorough …130) vendor-typed characteristics next to a library service and the library's television service with k optional characteristics added, for every k, and removal of rejected / member accessories followed by another add. Each container is built twice. Oracle: accepted accessories have pairwise distinct non-zero ids, instance ids distinct and non-zero per accessory, both builds give byte-identical JSON, JSON is well-formed HAP (aid/iid/type everywhere, every type a 1–8 digit short form or a complete UUID, valid format, permissions within the HAP vocabulary, linked ids resolvable). distinct_nontrivial = distinct (size, accepted count, id-mode tuple) classes Plus every history of length ≤4 (thorough ≤6) over 10 construction operations on one container (add A / B / C with explicit id, remove A / B, add services S1, S2 to A and S3 to B while under construction, link S1→S2 and S2→S1): after every operation the member list, id uniqueness and JSON well-formedness hold and the same history on fresh objects gives the same database. Plus, in a subprocess built with a scheduling point before EVERY statement of hc's packages (textual insertion through go build -overlay): every interleaving with at most 1 (thorough 2) preemptions of pairs of operations on disjoint objects — and, where the property is about served requests, of pairs of handlers on two verified connections of one accessory touching different characteristics — each side must observe exactly what it observes when the two run one after the other (module-level mutable state is what makes them differ).",
+		Rule:  "exhaustive enumeration of container compositions: templates = every accessory constructor of the library plus a custom accessory per service constructor × {plain, hidden, primary, linked}; explicit id ∈ {auto,1,2,3,7,2^64−1}; all single accessories, all pairs (quick: first element restricted to library accessories and every 8th custom one), all triples over a reduced template set, two large compositions (40, 150 accessories), for every service constructor an accessory rebuilt with a previously published service object, accessories JSON-encoded before being added, services without characteristics in every position, a vendor-typed service (UUIDs with and without a leading zero) holding k = 0…40 (thorough …130) vendor-typed characteristics next to a library service and the library's television service with k optional characteristics added, for every k, and removal of rejected / member accessories followed by another add. Each container is built twice. Oracle: accepted accessories have pairwise distinct non-zero ids, instance ids distinct and non-zero per accessory, both builds give byte-identical JSON, JSON is well-formed HAP (aid/iid/type everywhere, every type a 1–8 digit short form or a complete UUID, valid format, permissions within the HAP vocabulary, linked ids resolvable). distinct_nontrivial = distinct (size, accepted count, id-mode tuple) classes Plus every history of length ≤4 (thorough ≤6) over 10 construction operations on one container (add A / B / C with explicit id, remove A / B, add services S1, S2 to A and S3 to B while under construction, link S1→S2 and S2→S1; and from the state 'two accessories added and removed again' every history of length ≤3 (thorough ≤5) over these plus a second accessory that asks for the same explicit id): after every operation the member list, id uniqueness and JSON well-formedness hold and the same history on fresh objects gives the same database. Plus, in a subprocess built with a scheduling point before EVERY statement of hc's packages (textual insertion through go build -overlay): every interleaving with at most 1 (thorough 2) preemptions of pairs of operations on disjoint objects — and, where the property is about served requests, of pairs of handlers on two verified connections of one accessory touching different characteristics — each side must observe exactly what it observes when the two run one after the other (module-level mutable state is what makes them differ).",
 		Run:   c14Run,
 		Replay: func(c *fw.Ctx, raw json.RawMessage) {
 			var cas c14Case
 			json.Unmarshal(raw, &cas)
-			for _, op := range c14Ops {
+			for _, op := range append(append([]string{}, c14Ops...), "add(E#2)") {
 				if len(cas.Tmpls) > 0 && cas.Tmpls[0] == op {
 					c14History1(c, cas.Tmpls, true)
 					return
@@ -662,6 +662,7 @@ func c14NewWorld() *c14World {
 	w.acc["B"] = accessory.New(accessory.Info{Name: "B"}, accessory.TypeOther)
 	w.acc["C#2"] = accessory.New(accessory.Info{Name: "C", ID: 2}, accessory.TypeOther)
 	w.acc["D#max"] = accessory.New(accessory.Info{Name: "D", ID: math.MaxUint64}, accessory.TypeOther)
+	w.acc["E#2"] = accessory.New(accessory.Info{Name: "E", ID: 2}, accessory.TypeOther) // a second accessory that asks for id 2
 	w.svc["S1"] = service.NewSwitch().Service
 	w.svc["S2"] = service.NewOutlet().Service
 	w.svc["S3"] = service.NewLightbulb().Service
@@ -715,6 +716,17 @@ func c14Histories(c *fw.Ctx) {
 			hist = append(hist, c14Ops[s])
 		}
 		return c14History1(c, hist, len(h) == depth)
+	})
+	// from the non-initial state "the container held two accessories and was emptied again": every history of length ≤3
+	// (thorough ≤4) over the operations plus a second accessory that asks for the explicit id 2
+	emptied := []string{"add(A)", "add(B)", "remove(A)", "remove(B)"}
+	ops2 := append(append([]string{}, c14Ops...), "add(E#2)")
+	exploreTree(c, len(ops2), depth-1, func(h []int) bool {
+		hist := append([]string{}, emptied...)
+		for _, s := range h {
+			hist = append(hist, ops2[s])
+		}
+		return c14History1(c, hist, len(h) == depth-1)
 	})
 }
 
